@@ -1,11 +1,8 @@
 #!/bin/bash
-# For every fix commit: revert it on a scratch worktree and run the owning quick check; it must alarm.
+# For every fix commit: revert it on a scratch worktree (/tmp/mut/C01../C14, worktrees of /repo at HEAD)
+# and run the owning quick check; it must alarm. See DESIGN.md 6h.
 cd /verif
-python3 - <<'PY' > /tmp/x/fixlist.txt
-import json
-for h,ids,props,subj in json.load(open('/tmp/x/fixlist.json')):
-    print(h, ids, props.split()[0] if props else 'C09')
-PY
+mkdir -p /tmp/x; rm -f /tmp/x/lane_*.txt; python3 tools/fixlist.py > /tmp/x/fixlist.txt
 i=0
 while read h ids prop; do
   lane=$(( i % 14 + 1 )); i=$((i+1))
